@@ -10,7 +10,12 @@ begins at most `cap` iterations (counter observed from inside the loop).
 C API family (implementation only, harness line "api;.."): the same clauses for an instance created WITH the limit through
 sqfvm_create_instance(_basic) and driven by sqfvm_call / sqfvm_load_config / sqfvm_status - what a run is given does not depend
 on the calls made before it (executing or not: syntax error, preprocessing error, preprocess only, transpile, invalid type, config
-load, status) nor on the time the host let pass between them: expected markers, return value, cut time computed by the generator."""
+load, status) nor on the time the host let pass between them: expected markers, return value, cut time computed by the generator.
+Several instances in ONE process (implementation only, harness line "mapi;.."): 2 - 3 instances created with DIFFERENT limits
+(0 = none), in every order of creation and of first execution (a run, an __EVAL while sqfvm_call / sqfvm_load_config preprocess a
+text), also one destroyed before the next is created: every call is judged by the same oracle against the limit of ITS instance - a
+run ends within its own instance's limit and not before it, an instance without a limit is never cut. The model has one VM; that a
+run depends on no other VM of the process is the property's "every run" read per instance (metamorphic, no Coq theorem)."""
 import json, os, sys
 import vcommon as V
 import vmcommon as M
@@ -247,6 +252,57 @@ def api_line(c):
     return "api;%d;%d;%s\t%s" % (mx, tick, set_, "@".join(cs))
 
 
+def api_judge_call(n, op, exp, o, lim, tick, stats, who=""):
+    """the property on ONE call of the C API. op = (kind, type, text) | ("G", text) | ("Q",); lim = the limit in us of the instance the call is
+    made on (0 = none); returns None or the text of the violation"""
+    if op[0] == "Q":
+        if o != "Q0":
+            return "call %d%s: sqfvm_status reports %s between the calls, the instance must be empty" % (n, who, o[1:])
+        return None
+    f = o[1:].split(":", 3)
+    try:
+        ret, status = int(f[0]), int(f[1])
+        t0, t1 = [int(x) for x in f[2].split("-")]
+        events = f[3]
+    except (ValueError, IndexError):
+        return "call %d%s did not come back: %s" % (n, who, o[:100])
+    took = t1 - t0
+    marks = SC.markers(events)
+    tl = "TL," in events
+    what = ("call %d (sqfvm_call type %r%s, %s %d us old)" % (n, op[1], who, "process" if who else "instance", t0) if op[0] == "K"
+            else "call %d (sqfvm_load_config%s)" % (n, who))
+    # an __EVAL(..) in the text is evaluated while the text is preprocessed: a short run of its own before the run of the call
+    evals = op[-1].count("__EVAL") if op[0] in ("K", "G") else 0
+    if lim == 0 and tl:
+        return "%s was aborted by a time limit after %d us: the instance was created without one" % (what, took)
+    if lim and took > lim + (SLACK_TICKS + API_EVAL_TICKS * evals) * tick:
+        return "%s took %d us of virtual time, the limit is %d us (tick %d)" % (what, took, lim, tick)
+    if tl and (ret != API_RET_FAILED or status != 0):
+        return "%s logged 'maximum runtime reached' but returns %d and leaves status %d" % (what, ret, status)
+    if tl and took < lim - 1000:
+        return ("%s was aborted by the time limit %d us after it began: the limit of %d us is measured from the start of the run" % (what, took, lim))
+    if exp is None:
+        stats["noexec"] = stats.get("noexec", 0) + 1
+        stats.setdefault("noexec_returns", {}).setdefault(str(ret), 0)
+        stats["noexec_returns"][str(ret)] += 1
+        return None
+    if exp[0] == "complete":
+        stats["complete"] = stats.get("complete", 0) + 1
+        if ret != API_RET_OK or status != 0 or tl or marks != list(exp[1]):
+            return ("%s: a program well within the limit did not execute normally: returns %d, status %d, %s, logged %s of %s"
+                    % (what, ret, status, "aborted by the time limit after %d us" % took if tl else "not aborted by the limit", marks[:4], list(exp[1])[:4]))
+    elif exp[0] == "cut":
+        stats["cut"] = stats.get("cut", 0) + 1
+        if ret != API_RET_FAILED or status != 0 or not tl:
+            return "%s: a program that does not end within the limit: returns %d, status %d, 'maximum runtime reached' %s" % (
+                what, ret, status, "logged" if tl else "not logged")
+        if exp[1] is not None and marks[:len(exp[1])] != list(exp[1]):
+            return "%s: cut by the limit after %d us, but of what the run logs at its start %s only %s came" % (what, took, list(exp[1]), marks[:4])
+        if exp[2] is not None and (marks != list(exp[2])[:len(marks)] or 3 * (len(marks) + 2) * tick < lim - 1000):
+            return "%s: a long program cut by the limit logged %d markers (%s..), not a prefix of its %d that fills the limit" % (what, len(marks), marks[:3], len(exp[2]))
+    return None
+
+
 def api_judge(c, out, stats):
     """the property on one C API history; returns None or the text of the violation"""
     mx, tick, set_ = c["cfg"]
@@ -255,52 +311,211 @@ def api_judge(c, out, stats):
     c["impl"] = [o[:600] for o in obs] if obs else [out[:300]]
     if len(obs) != len(c["hist"]):
         return "the history of C API calls did not come back: %s" % out.replace("\t", " ")[:160]
-    age = 0
     for n, (op, exp, o) in enumerate(zip(c["hist"], c["expect"], obs)):
         if op[0] == "J":
             continue
-        if op[0] == "Q":
-            if o != "Q0":
-                return "call %d: sqfvm_status reports %s between the calls, the instance must be empty" % (n, o[1:])
+        bad = api_judge_call(n, op, exp, o, lim, tick, stats)
+        if bad:
+            return bad
+    return None
+
+
+# ---- the C API family over SEVERAL instances of one process, each created with its OWN limit (0 = none)
+# an op: ("C", i) create instance i | ("D", i) destroy it | ("K", i, type char, text) | ("G", i, config text) | ("Q", i) | ("J", microseconds)
+# The oracle is the one of the single-instance family with the limit of the instance the call is made on: what a run is given depends
+# on nothing else in the process - not on which instance was created first, executed first (a run, an __EVAL while a text is preprocessed
+# by sqfvm_call or sqfvm_load_config), is still alive, or what limits the others have.
+MAPI_CFGS = [(250, [0, 30, 100, 110, 400, 1000]), (1000, [0, 60, 200, 2000]), (100, [0, 30, 64, 250])]     # tick us, limits ms
+MAPI_FIRST = ["run_short", "run_medium", "run_cut", "eval_in_run", "eval_preprocess_only", "eval_then_syntax_error", "eval_then_pp_error", "config_eval"]
+
+
+def mapi_quiet(rng, i):
+    """a call on instance i that executes nothing at all (no __EVAL either)"""
+    a = rng.randint(1, 40)
+    return rng.choice([("K", i, "p", "#define ONE %d\ndiag_log ONE" % a), ("K", i, "s", "diag_log (%d +" % a), ("K", i, "s", "#bogus\ndiag_log %d" % a),
+                       ("K", i, "1", "diag_log %d" % a), ("K", i, "x", "diag_log %d" % a), ("G", i, "class Q%d { x = %d; };" % (a, a)), ("Q", i)])
+
+
+def mapi_first(rng, kind, i, units, base, finite_only):
+    """the first code the process executes, on instance i: (op, expect)"""
+    a, b = rng.randint(1, 40), rng.randint(1, 40)
+    if kind == "run_cut" and units == 0:
+        kind = "run_short"
+    if kind == "run_medium" and units == 0:
+        kind = "eval_in_run"
+    if kind in ("run_short", "run_medium", "eval_in_run"):
+        _, op, ex = api_exec(rng, units, base, {"run_short": "short", "run_medium": "medium", "eval_in_run": "eval"}[kind])
+        return ("K", i, op[1], op[2]), ex
+    if kind == "run_cut":
+        _, op, ex = api_exec(rng, units, base, "long" if finite_only else rng.choice(["endless", "long"]))
+        return ("K", i, op[1], op[2]), ex
+    if kind == "eval_preprocess_only":
+        return ("K", i, "p", "a __EVAL(%d + %d) b" % (a, b)), None
+    if kind == "eval_then_syntax_error":
+        return ("K", i, "s", "diag_log __EVAL(%d + %d) +" % (a, b)), None
+    if kind == "eval_then_pp_error":
+        return ("K", i, "s", "x = __EVAL(%d + %d);\n#bogus\n" % (a, b)), None
+    return ("G", i, "class F%d { x = __EVAL(%d + %d); };" % (base, a, b)), None
+
+
+def mapi_probe(rng, which, i, units, base, finite_only, others_units):
+    """a run on instance i judged against ITS limit (units = limit / tick, 0 = none): (op, expect)"""
+    if units == 0 and which in ("cut", "medium"):
+        # no limit: a finite program that takes at least twice the longest limit of the other instances completes
+        n = 2 * max([u for u in others_units] + [100])
+        return ("K", i, "s", "diag_log %d; for \"_i\" from 1 to %d do {}; diag_log (%d + 1)" % (base, n, base)), ("complete", [str(base), str(base + 1)])
+    if which == "cut":
+        which = "long" if finite_only else rng.choice(["endless", "endless", "long"])
+    _, op, ex = api_exec(rng, units, base, which)
+    return ("K", i, op[1], op[2]), ex
+
+
+def mapi_histories(rng, thorough):
+    cases = []
+
+    def mk(name, tick, insts, pairs):
+        cases.append({"kind": "mapi", "name": name, "tick": tick, "insts": list(insts), "hist": [p[0] for p in pairs], "expect": [p[1] for p in pairs]})
+
+    def set_():
+        return rng.choice(["full", "basic", "basic"])
+
+    def pause(pairs, lims, p=0.5):
+        ls = [l * 1000 for l in lims if l] or [1000]
+        if rng.random() < p:
+            l = rng.choice(ls)
+            pairs.append((("J", rng.choice([l // 10, l // 2, l, l + l // 10, 3 * l, 50 * l])), None))
+
+    # 1. two instances with different limits: F executes the first code of the process, O is the one observed afterwards (then F, too).
+    #    every ordered pair of limits x every kind of first code x the order of creation (F first / O first / O only after F executed);
+    #    the order of the probes drawn at random
+    for rep in range(4 if thorough else 1):
+        for tick, lims in MAPI_CFGS:
+            for lf in lims:
+                for lo in lims:
+                    if lf == lo:
+                        continue
+                    for kind, order in [(kd, od) for kd in MAPI_FIRST for od in ["F,O", "O,F", "F..O"]]:
+                        uf, uo = lf * 1000 // tick, lo * 1000 // tick
+                        finite = (lf == 0 or lo == 0)
+                        F, O = (0, 1) if order != "O,F" else (1, 0)
+                        insts = [None, None]
+                        insts[F], insts[O] = (lf, set_()), (lo, set_())
+                        pairs = [(("C", 0), None)] + ([(("C", 1), None)] if order != "F..O" else [])
+                        if order != "F..O" and rng.random() < 0.5:
+                            pairs.append((mapi_quiet(rng, O), None))
+                        pause(pairs, [lf, lo], 0.3)
+                        pairs.append(mapi_first(rng, kind, F, uf, 100, finite))
+                        if order == "F..O":
+                            pairs.append((("C", 1), None))
+                        pause(pairs, [lf, lo])
+                        probes = [(O, uo, "cut", [uf]), (O, uo, "medium", [uf]), (O, uo, "short", [uf]), (F, uf, rng.choice(["cut", "medium"]), [uo])]
+                        rng.shuffle(probes)
+                        for k, (i, u, which, others) in enumerate(probes):
+                            pairs.append(mapi_probe(rng, which, i, u, 200 + 100 * k, finite, others))
+                            pause(pairs, [lf, lo], 0.3)
+                        pairs += [(("Q", 0), None), (("Q", 1), None)]
+                        mk("two instances, limits F=%d ms O=%d ms, created %s, first code: %s on F" % (lf, lo, order, kind), tick, insts, pairs)
+    # 2. one instance after the other: the first is destroyed before the second (another limit) is created
+    for rep in range(6 if thorough else 1):
+        for tick, lims in MAPI_CFGS:
+            for lf in lims:
+                for lo in lims:
+                    if lf == lo:
+                        continue
+                    uf, uo = lf * 1000 // tick, lo * 1000 // tick
+                    finite = (lf == 0 or lo == 0)
+                    kind = rng.choice(MAPI_FIRST)
+                    pairs = [(("C", 0), None), mapi_first(rng, kind, 0, uf, 100, finite)]
+                    if rng.random() < 0.5:
+                        pairs.append(mapi_probe(rng, "short", 0, uf, 200, finite, [uo]))
+                    pairs.append((("D", 0), None))
+                    pause(pairs, [lf, lo])
+                    pairs.append((("C", 1), None))
+                    for k, which in enumerate(rng.sample(["cut", "medium", "short", "eval"], 3)):
+                        pairs.append(mapi_probe(rng, which, 1, uo, 300 + 100 * k, finite, [uf]))
+                        pause(pairs, [lf, lo], 0.3)
+                    pairs.append((("Q", 1), None))
+                    mk("one instance after the other, limits %d ms then %d ms, first code: %s" % (lf, lo, kind), tick, [(lf, set_()), (lo, set_())], pairs)
+    # 3. random histories over 2 - 3 instances (limits drawn with repetition), created at the start or right before their first call,
+    #    some destroyed on the way: calls that execute nothing, runs of every kind, idle time
+    for n in range(3000 if thorough else 150):
+        tick, lims = rng.choice(MAPI_CFGS)
+        k = rng.choice([2, 3, 3])
+        insts = [(rng.choice(lims), set_()) for _ in range(k)]
+        if len(set(l for l, _ in insts)) == 1:
+            insts[0] = (rng.choice([l for l in lims if l != insts[1][0]]), insts[0][1])
+        units = [l * 1000 // tick for l, _ in insts]
+        finite = 0 in units
+        lazy = rng.random() < 0.5
+        state = ["new"] * k
+        pairs = []
+        if not lazy:
+            order = list(range(k)); rng.shuffle(order)
+            for i in order:
+                pairs.append((("C", i), None)); state[i] = "live"
+        for c in range(rng.randint(4, 10)):
+            cand = [i for i in range(k) if state[i] != "dead"]
+            if not cand:
+                break
+            i = rng.choice(cand)
+            if state[i] == "new":
+                pairs.append((("C", i), None)); state[i] = "live"
+            r = rng.random()
+            others = [u for j, u in enumerate(units) if j != i]
+            if r < 0.2:
+                pairs.append((mapi_quiet(rng, i), None))
+            elif r < 0.35:
+                pairs.append(mapi_first(rng, rng.choice(MAPI_FIRST[3:]), i, units[i], 100 * (c + 1), finite))
+            elif r < 0.93:
+                pairs.append(mapi_probe(rng, rng.choice(["cut", "cut", "medium", "medium", "short", "eval", "silent"]), i, units[i], 100 * (c + 1), finite, others))
+            else:
+                pairs.append((("D", i), None)); state[i] = "dead"
+            pause(pairs, [l for l, _ in insts], 0.4)
+        if not any(e for _, e in pairs):
             continue
-        f = o[1:].split(":", 3)
-        try:
-            ret, status = int(f[0]), int(f[1])
-            t0, t1 = [int(x) for x in f[2].split("-")]
-            events = f[3]
-        except (ValueError, IndexError):
-            return "call %d did not come back: %s" % (n, o[:100])
-        took = t1 - t0
-        marks = SC.markers(events)
-        tl = "TL," in events
-        what = "call %d (sqfvm_call type %r, instance %d us old)" % (n, op[1], t0) if op[0] == "K" else "call %d (sqfvm_load_config)" % n
-        # an __EVAL(..) in the text is evaluated while the text is preprocessed: a short run of its own before the run of the call
-        evals = op[-1].count("__EVAL") if op[0] in ("K", "G") else 0
-        if took > lim + (SLACK_TICKS + API_EVAL_TICKS * evals) * tick:
-            return "%s took %d us of virtual time, the limit is %d us (tick %d)" % (what, took, lim, tick)
-        if tl and (ret != API_RET_FAILED or status != 0):
-            return "%s logged 'maximum runtime reached' but returns %d and leaves status %d" % (what, ret, status)
-        if tl and took < lim - 1000:
-            return ("%s was aborted by the time limit %d us after it began: the limit of %d us is measured from the start of the run" % (what, took, lim))
-        if exp is None:
-            stats["noexec"] = stats.get("noexec", 0) + 1
-            stats.setdefault("noexec_returns", {}).setdefault(str(ret), 0)
-            stats["noexec_returns"][str(ret)] += 1
+        mk("random%d: %d instances, limits %s ms, %s" % (n, k, "/".join(str(l) for l, _ in insts), "created on first use" if lazy else "all created first"),
+           tick, insts, pairs)
+    return cases
+
+
+def mapi_from_json(r, prefix=""):
+    return {"kind": "mapi", "name": prefix + r.get("name", ""), "tick": r["tick"], "insts": [tuple(i) for i in r["insts"]],
+            "hist": [tuple(h) for h in r["hist"]], "expect": [tuple(e) if e else None for e in r["expect"]]}
+
+
+def mapi_line(c):
+    cs = []
+    for op in c["hist"]:
+        if op[0] == "K":
+            cs.append("K%d:%s:%s" % (op[1], V.hx(op[2].encode("latin-1")), V.hx(op[3].encode("latin-1"))))
+        elif op[0] == "G":
+            cs.append("G%d:%s" % (op[1], V.hx(op[2].encode("latin-1"))))
+        elif op[0] == "J":
+            cs.append("J%d" % op[1])
+        else:
+            cs.append("%s%d" % (op[0], op[1]))
+    return "mapi;%d;%s\t%s" % (c["tick"], ",".join("%d:%s" % (l, s_) for l, s_ in c["insts"]), "@".join(cs))
+
+
+def mapi_judge(c, out, stats):
+    """the property on one history over several instances: every call against the limit of ITS instance"""
+    obs = out.split("\t")[0].split("|") if "\t" in out else []
+    c["impl"] = [o[:600] for o in obs] if obs else [out[:300]]
+    if len(obs) != len(c["hist"]):
+        return ("the history of C API calls did not come back (%s): no run of it may outlast the limit of its instance, and none of the programs "
+                "given to an instance without a limit is endless" % out.replace("\t", " ")[:120])
+    for n, (op, exp, o) in enumerate(zip(c["hist"], c["expect"], obs)):
+        if op[0] == "J":
             continue
-        if exp[0] == "complete":
-            stats["complete"] = stats.get("complete", 0) + 1
-            if ret != API_RET_OK or status != 0 or tl or marks != list(exp[1]):
-                return ("%s: a program well within the limit did not execute normally: returns %d, status %d, %s, logged %s of %s"
-                        % (what, ret, status, "aborted by the time limit after %d us" % took if tl else "not aborted by the limit", marks[:4], list(exp[1])[:4]))
-        elif exp[0] == "cut":
-            stats["cut"] = stats.get("cut", 0) + 1
-            if ret != API_RET_FAILED or status != 0 or not tl:
-                return "%s: a program that does not end within the limit: returns %d, status %d, 'maximum runtime reached' %s" % (
-                    what, ret, status, "logged" if tl else "not logged")
-            if exp[1] is not None and marks[:len(exp[1])] != list(exp[1]):
-                return "%s: cut by the limit after %d us, but of what the run logs at its start %s only %s came" % (what, took, list(exp[1]), marks[:4])
-            if exp[2] is not None and (marks != list(exp[2])[:len(marks)] or 3 * (len(marks) + 2) * tick < lim - 1000):
-                return "%s: a long program cut by the limit logged %d markers (%s..), not a prefix of its %d that fills the limit" % (what, len(marks), marks[:3], len(exp[2]))
+        if op[0] in ("C", "D"):
+            if o != op[0]:
+                return "call %d: instance %d could not be %s: %s" % (n, op[1], "created" if op[0] == "C" else "destroyed", o[:60])
+            continue
+        lim_ms = c["insts"][op[1]][0]
+        bad = api_judge_call(n, (op[0],) + tuple(op[2:]), exp, o, lim_ms * 1000, c["tick"], stats,
+                             who=" on instance %d of %d, its limit %s" % (op[1], len(c["insts"]), "%d ms" % lim_ms if lim_ms else "none"))
+        if bad:
+            return bad
     return None
 
 
@@ -327,6 +542,7 @@ def main(replay=None):
     # a case: dict(kind, hist, cfg=(max_ms, tick_us, max_loop), expect=[per command: None | ("cut",) | ("complete", markers) | ("cap", bound)])
     cases = []
     api_cases = []
+    mapi_cases = []
 
     def add(kind, hist, cfg, expect, name=""):
         cases.append({"kind": kind, "hist": hist, "cfg": cfg, "expect": expect, "name": name})
@@ -335,6 +551,8 @@ def main(replay=None):
         r = json.load(open(replay))["replay"]
         api_cases.append({"kind": "api", "name": r.get("name", ""), "cfg": tuple(r["cfg"]), "hist": [tuple(c) for c in r["hist"]],
                           "expect": [tuple(e) if e else None for e in r["expect"]]})
+    elif replay and json.load(open(replay))["replay"].get("kind") == "mapi":
+        mapi_cases.append(mapi_from_json(json.load(open(replay))["replay"]))
     elif replay:
         r = json.load(open(replay))["replay"]
         add(r.get("kind", "replay"), [tuple(c) for c in r["hist"]], tuple(r["cfg"]), [tuple(e) if e else None for e in r["expect"]], r.get("name", ""))
@@ -343,6 +561,9 @@ def main(replay=None):
         if os.path.isdir(cdir):
             for fn in sorted(os.listdir(cdir)):
                 r = json.load(open(os.path.join(cdir, fn)))
+                if r.get("kind") == "mapi":
+                    mapi_cases.append(mapi_from_json(r, "corpus:" + fn + ": "))
+                    continue
                 add("corpus:" + fn, [tuple(c) for c in r["hist"]], tuple(r["cfg"]), [tuple(e) if e else None for e in r["expect"]], r.get("name", fn))
         endless = endless_programs()
         limits = [(1, 100), (5, 1000), (20, 500), (3, 37)] + ([(50, 100), (200, 1000), (7, 7)] if thorough else [])
@@ -474,6 +695,8 @@ def main(replay=None):
                 [None, ("ends",), None, None, None, ("complete", ["77"])], "random%d" % i)
         # 8. the C API: histories of calls on ONE instance created with the limit - calls that execute nothing, idle time, runs
         api_cases += api_histories(rng, thorough)
+        # 9. the C API: several instances in one process, each with its own limit (or none)
+        mapi_cases += mapi_histories(rng, thorough)
 
     by_cfg = {}
     for idx, c in enumerate(cases):
@@ -499,6 +722,20 @@ def main(replay=None):
                                     "expect": [list(e) if e else None for e in c["expect"]], "impl": c["impl"],
                                     "how_to_read": "cfg = limit ms, clock tick us, operator set; hist: K type text = sqfvm_call, G = sqfvm_load_config, Q = sqfvm_status, "
                                                    "J = the host idles that many us; impl: K<return>:<status after>:<clock before>-<after>:<callbacks>"})
+    mapi_stats = {}
+    if mapi_cases:
+        rc, aout, aerr = V.run_lines_parallel([himpl], [mapi_line(c) for c in mapi_cases], timeout=3000)
+        for c, o in zip(mapi_cases, aout):
+            bad = mapi_judge(c, o, mapi_stats)
+            kinds["api_several_instances"] = kinds.get("api_several_instances", 0) + 1
+            distinct.add((c["name"], c["tick"], tuple(c["insts"]), tuple(c["hist"])))
+            if bad:
+                run.violation(bad, {"kind": "mapi", "name": c["name"], "tick": c["tick"], "insts": [list(i) for i in c["insts"]],
+                                    "hist": [list(h) for h in c["hist"]], "expect": [list(e) if e else None for e in c["expect"]], "impl": c["impl"],
+                                    "how_to_read": "one process; insts = [limit ms (0 = none), operator set] of instance 0, 1, ..; tick = us the virtual clock "
+                                                   "advances per query; hist: C i = sqfvm_create_instance(_basic) with that limit, D i = destroy, K i type text = "
+                                                   "sqfvm_call, G i text = sqfvm_load_config, Q i = sqfvm_status, J = the host idles that many us; "
+                                                   "impl: K<return>:<status after>:<clock before>-<after>:<callbacks>"})
     for c in cases:
         d = c["res"]
         mx, tick, cap = c["cfg"]
@@ -594,9 +831,12 @@ def main(replay=None):
     if api_cases:
         samples.append({"kind": "api", "name": api_cases[0]["name"], "cfg": list(api_cases[0]["cfg"]),
                         "hist": [[str(x)[:80] for x in h] for h in api_cases[0]["hist"]], "impl": [o[:120] for o in api_cases[0].get("impl", [])]})
+    if mapi_cases:
+        samples.append({"kind": "mapi", "name": mapi_cases[0]["name"], "tick": mapi_cases[0]["tick"], "insts": [list(i) for i in mapi_cases[0]["insts"]],
+                        "hist": [[str(x)[:80] for x in h] for h in mapi_cases[0]["hist"]], "impl": [o[:120] for o in mapi_cases[0].get("impl", [])]})
     for p in problems:
         run.violation("proof obligation not discharged: " + p, {"broken": p, "theorems": run.cov["theorems"]}, found_input=False)
-    run.cov["evaluations"] = len(cases) + len(api_cases)
+    run.cov["evaluations"] = len(cases) + len(api_cases) + len(mapi_cases)
     run.cov["distinct_nontrivial"] = len(distinct)
     run.cov["rule"] = ("histories on one VM under a virtual clock: every kind of endless program (while/for/forEach/count/apply/switch/try, empty "
                        "and non-empty bodies, scheduled and unscheduled, recursion through call, mutually spawning scripts, sleeping scripts, "
@@ -610,10 +850,21 @@ def main(replay=None):
                        "10^5 x limit then a run (short, 50-80 % of the limit, with __EVAL, 12 kinds of endless program, a finite program of 1.5-3 "
                        "limits), a short run, an endless run; and random histories of 3-9 such calls. Every run within the limit completes with "
                        "exactly its markers and 0, every other is cut with -6, the message of the limit, status 0, not before and at most 5 ticks "
-                       "after limit, having logged what it logs at its start")
+                       "after limit, having logged what it logs at its start. C API, several instances in one process (implementation only; "
+                       "oracle: the property per run with the limit of the instance the call is made on, independent of every other instance): "
+                       "3 clock ticks x 4-6 limits incl. none and a pair 100/110 ms; (1) every ordered pair of different limits (F executes the "
+                       "first code of the process, O is observed) x 8 kinds of first code (short / medium / cut run, __EVAL inside a run, in a "
+                       "preprocess-only call, before a syntax error, before a preprocessing error, in a config load) x 3 orders of creation "
+                       "(F first, O first, O only after F executed), then on O a program that must be cut (endless or 1.5-3 limits; on an "
+                       "instance without a limit a finite loop of twice the other's limit that must complete), one of 50-80 % of its limit, a "
+                       "short one, and one run on F, in random order with idle times; (2) every ordered pair with the first instance destroyed "
+                       "before the second is created; (3) random histories over 2-3 instances (created first or on first use, some destroyed) "
+                       "of calls that execute nothing, __EVALs, runs of every kind and idle time")
     run.cov["input_distribution"] = dict(kinds, runs_cut=ncut, runs_complete=ncomplete, caps_checked=ncap, expressions_evaluated_like_EVAL=neval,
                                          c_api_runs_complete=api_stats.get("complete", 0), c_api_runs_cut=api_stats.get("cut", 0),
-                                         c_api_calls_executing_nothing=api_stats.get("noexec", 0), c_api_returns_of_those=api_stats.get("noexec_returns", {}))
+                                         c_api_calls_executing_nothing=api_stats.get("noexec", 0), c_api_returns_of_those=api_stats.get("noexec_returns", {}),
+                                         c_api_several_instances_runs_complete=mapi_stats.get("complete", 0), c_api_several_instances_runs_cut=mapi_stats.get("cut", 0),
+                                         c_api_several_instances_calls_not_running=mapi_stats.get("noexec", 0))
     run.cov["samples"] = samples
     run.cov["constants"] = consts
     run.cov["trusted_base"] = ["Coq 8.16.1 kernel (vm_compute in Examples and the two switch-on witnesses)", "ExtrOcamlBasic extraction + ocaml/sched_driver.ml",
